@@ -405,3 +405,20 @@ PROPS["C11"] = {
         {"test": "^TestLifecycle$", "checks": 1200, "steps": 50, "shards": 15, "shrinktime": "30s", "timeout": 1800},
     ],
 }
+
+PROPS["C12"] = {
+    "pkg": "c12",
+    "technique": "long generated packet histories run as equal phases with heap measurement at phase boundaries (metamorphic relation: equal phases must not add retained memory)",
+    "level_text": "Every interceptor is run against six workload classes (in order, 5 % loss, 5 % duplicates, reordering, with periodic TWCC/RFC 8888/RR/NACK feedback, loss with feedback) as "
+                  "4 x 15 000 (quick) or 6 x 300 000 (thorough) packets in each direction; after each phase (pacers drained, tickers run, two forced GCs) HeapAlloc and HeapObjects are recorded; both of the "
+                  "last two phase-to-phase steps exceeding max(32 KiB, 0.5 %) and 200 objects is a violation, as is a heap that does not return to the baseline after Unbind/Close. Exploration.",
+    "level_note": "trusts: runtime.MemStats after two GCs; harness allocations are phase-local (counting sinks); asymptotic behaviour is sampled at 10^5..10^6 packets, so a leak slower than the tolerance is "
+                  "invisible; a pacer backlog that does not drain within 30 s makes the pair inconclusive; two growth-by-design cases are listed known findings",
+    "assumptions": ["one local and one remote stream per interceptor", "RTCP writer bound"],
+    "quick": [
+        {"test": "^TestMemoryBounded$", "shards": 10, "env": {"VERIF_C12_PHASES": 4, "VERIF_C12_PER_PHASE": 15000}, "timeout": 900},
+    ],
+    "thorough": [
+        {"test": "^TestMemoryBounded$", "shards": 16, "env": {"VERIF_C12_PHASES": 6, "VERIF_C12_PER_PHASE": 300000}, "timeout": 3000},
+    ],
+}
